@@ -55,7 +55,7 @@ func (w *World) genValue(a *Account, key []byte) []byte {
 }
 
 func (w *World) genPauseFlag() []byte {
-	if w.Cfg.Thin || !verif.Bool("pause.present") {
+	if w.Cfg.Thin || w.Cfg.NoPauseGen || !verif.Bool("pause.present") {
 		return nil
 	}
 	return verif.Bytes("pause.flag", 2)
@@ -113,7 +113,7 @@ func (w *World) GenToken(x []byte) *esdt.ESDigitalToken {
 		if maxj > 8 {
 			maxj = 8
 		}
-		if w.Cfg.Thin {
+		if w.Cfg.Thin || w.Cfg.Split1 {
 			maxj = 1
 		}
 		j := 1 + verif.Choose("tok.noncelen", maxj)
